@@ -6,13 +6,15 @@ from props.reccommon import rand_rec, rand_rec_fmt1, dur_is_nominal, EXACT
 from props.tpcommon import is_tp, q, rand_exact_dur
 from props.c11 import respell
 
+IMPL_MODULES = ("impl_text", "impl_rectext")
+
 RULE = ("recurrences as in C12 (all notations incl. single-point ones) x exact shift durations from the C01 catalogue, in either "
         "operand order, and back; pairs of recurrences differing in exactly one of repetitions/start/end/interval, and pairs "
         "spelling the same anchors and interval differently (other offset, other units); str/parse round trip of every "
         "constructed recurrence. non-trivial = more than one point or a non-empty shift.")
 EXPLANATION = ("oracle: shifted recurrence keeps repetitions and interval, anchors and (exact intervals) every listed point move by len(d) "
                "in Spec instants, (r+d)-d == r with equal hash; == / hash on crafted pairs; parse(str(r)) == r with the same points and "
-               "str a fixpoint (implementation only until the parser model covers recurrences); shift/equality compared with the model")
+               "str a fixpoint; the text, the re-parsed recurrence and the hashed tuple are compared with the model (Props/C14Text.v); shift/equality compared with the model")
 
 
 def rezone_same_instant(rng, tp):
@@ -61,7 +63,7 @@ def generate(rng, tier):
     for i in range(n):
         md = MODES[i % 4]
         args, info = rand_rec_fmt1(rng, md) if rng.random() < 0.2 else rand_rec(rng, md, kind=rng.choice(["exact", "exact", "nominal", "zero"]))
-        fam = rng.choice("AAAEET")
+        fam = rng.choice("AAAEETT")
         if fam == "A":
             d, _, _ = rand_exact_dur(rng, decimals=False)
             cases.append(Case(["rmake %s %s" % (md, args), "recadd %s %s %s" % (md, args, d)],
@@ -82,19 +84,21 @@ def generate(rng, tier):
                 want, what = "1", "respelled"
             if other is None:
                 continue
-            cases.append(Case(["req %s %s %s" % (md, args, other), "rmake %s %s" % (md, args), "rmake %s %s" % (md, other)],
+            cases.append(Case(["req %s %s %s" % (md, args, other), "rmake %s %s" % (md, args), "rmake %s %s" % (md, other),
+                               "rechash %s %s" % (md, args), "rechash %s %s" % (md, other)],
                               ["equality", "mode:" + md, "diff:" + what], md=md, fam="E", want=want, **info))
         else:
             if "-" in info["d"].replace("DU", "").replace("DW", "").strip() and any(x.startswith("-") for x in info["d"].split()[1:]):
                 continue      # mixed-sign intervals are not parser-producible
-            cases.append(Case(["rtext %s %s" % (md, args)], ["text", "mode:" + md, "fmt:%d" % info["fmt"]], md=md, fam="T", **info))
+            cases.append(Case(["rtext %s %s" % (md, args), "recrt %s %s" % (md, args), "rechash %s %s" % (md, args)],
+                              ["text", "mode:" + md, "fmt:%d" % info["fmt"]], md=md, fam="T", **info))
     return cases
 
 
 def model_lines(c):
     md, fam = c.meta["md"], c.meta["fam"]
     if fam == "T":
-        return []
+        return list(c.lines[1:])
     mq = list(c.lines)
     if fam == "A":
         a = [x.strip() for x in c.impl[0].split(";")]
@@ -115,11 +119,17 @@ def judge(c):
         if len(t) != 5 or t[1:] != ["eq 1", "pts 1", "hash 1", "fix 1"]:
             nb = "nominal-bounded: " if (c.meta["kind"] == "nominal" and (c.meta["n"] or 0) >= 2) else ""
             res.append(("violation", nb + "%s: str/parse round trip gives %s" % (c.lines[0], I[0])))
+        # the text, the re-parsed recurrence and the hashed tuple against the model (Props/C14Text.v)
+        for l, x, y in zip(c.lines[1:], I[1:], M):
+            if y != "UNMODELLED" and not close_rec(x, y):
+                res.append(("disagree", "%s: implementation %r, model %r" % (l, x, y)))
         return res
     for l, x, y in zip(c.lines, I, M[:len(c.lines)]):
-        if x != y:
+        if x != y and not (l.startswith("rechash") and close_rec(x, y)):
             res.append(("disagree", "%s: implementation %r, model %r" % (l, x, y)))
     if fam == "E":
+        if I[0] == "1" and not I[3].startswith("ERR") and not close_rec(I[3], I[4]):
+            res.append(("violation", "%s: equal recurrences hash different tuples: %s vs %s" % (c.lines[0], I[3], I[4])))
         if I[1].startswith("ERR") or I[2].startswith("ERR"):
             return res
         if I[0] != c.meta["want"]:
@@ -157,6 +167,24 @@ def judge(c):
         if len(pa) != len(pb) or any(y != x + L for x, y in zip(ia, ib)):
             res.append(("violation", "%s: the points of the series are not all moved by the shift: %s -> %s" % (c.lines[1], pa[:3], pb[:3])))
     return res
+
+
+def close_rec(x, y):
+    """token-wise equality, numbers within 1e-9 (decimal forms are floats on the implementation side)"""
+    if x == y:
+        return True
+    a, b = x.split(), y.split()
+    if len(a) != len(b):
+        return False
+    for u, v in zip(a, b):
+        if u == v:
+            continue
+        try:
+            if abs(Fraction(u) - Fraction(v)) > Fraction(1, 10 ** 9):
+                return False
+        except (ValueError, ZeroDivisionError):
+            return False
+    return True
 
 
 def nontrivial(c):
